@@ -9,6 +9,9 @@ import (
 	"sync"
 )
 
+// maxProtocolMessage is the largest message accepted from a peer.
+const maxProtocolMessage = 1 << 31
+
 // Protocol handles the casync protocol when using remote stores via SSH
 type Protocol struct {
 	r           io.Reader
@@ -176,11 +179,19 @@ func (p *Protocol) ReadMessage() (Message, error) {
 		return Message{}, errors.New("message length too short")
 	}
 
-	// Read the remaining message body
-	b, err := r.ReadN(len - 8)
-	if err != nil {
+	// Read the remaining message body. The length comes from the peer: read
+	// incrementally so memory use is bounded by what is actually received.
+	if len > maxProtocolMessage {
+		return Message{}, errors.New("message length too large")
+	}
+	var buf bytes.Buffer
+	if _, err := io.CopyN(&buf, p.r, int64(len-8)); err != nil {
+		if err == io.EOF {
+			err = io.ErrUnexpectedEOF
+		}
 		return Message{}, err
 	}
+	b := buf.Bytes()
 
 	// Get the message type and strip it off the remaining message data
 	typ := binary.LittleEndian.Uint64(b[0:8])
